@@ -17,7 +17,7 @@ import json
 import os
 import sys
 
-from common import Check, coq_Z, parse_coq_value, parse_eval_outputs, run_impl
+from common import VERIF, Check, coq_Z, parse_coq_value, parse_eval_outputs, run_impl
 
 sys.path.insert(0, os.path.join(os.path.dirname(os.path.abspath(__file__)), "impl"))
 import c18_rfc_server as srv  # noqa: E402
@@ -198,6 +198,29 @@ def gen_cases(ck: Check):
         add(base(natural_nonce=True), "honest")
     for _ in range(ck.n(60, 1500)):
         add(base(), "honest")
+    # honest runs whose ClientProof / ClientSignature / ClientKey has leading zero bytes (1 login in 256 by chance):
+    # the server nonce is steered, with the reference implementation, until the expected proof starts with 0x00
+    import sys as _sys
+    _sys.path.insert(0, os.path.join(VERIF, "harness", "impl"))
+    import c18_rfc_server as _srv
+    for mech in MECHS:
+        for _k in range(ck.n(3, 12)):
+            b = base(mech=mech, it=rng.randrange(1, 9))
+            if any(ch in b["user"] for ch in ",="):
+                b["user"] = "user"
+            cn = cnonce_of(b)
+            salt = bytes(b["salt"])
+            salted = _srv.hi_(mech, b["password"].encode("utf-8"), salt, b["iterations"])
+            ckey = _srv.hmac_(mech, salted, b"Client Key")
+            stored = _srv.h_(mech, ckey)
+            for j in range(20000):
+                sn = (b["snonce"] + "%d" % j).encode()
+                sf = b"r=" + cn + sn + b",s=" + base64.b64encode(salt) + b",i=" + str(b["iterations"]).encode()
+                auth = b"n=" + b["user"].encode("utf-8") + b",r=" + cn + b"," + sf + b",c=biws,r=" + cn + sn
+                proof = _srv.xor(ckey, _srv.hmac_(mech, stored, auth))
+                if proof[0] == 0:
+                    add(b, "honest", snonce=sn.decode())
+                    break
     # RFC 7677 test vector (SCRAM-SHA-256): nonce injection is not possible through uuid4
     # (not hex), so only credentials/salt/iterations of the vector are used
     add({"mech": "SCRAM-SHA-256", "user": "user", "password": "pencil", "server_password": "pencil",
